@@ -140,7 +140,8 @@ func Mk(spec string, lexTerms ...string) *Grammar {
 				case f == "error":
 					a.Err = true
 				case strings.HasPrefix(f, `"`):
-					a.Body = append(a.Body, Sym{Name: strings.Trim(f, `"`), Str: true})
+					// (~ inside a quoted name stands for a blank)
+					a.Body = append(a.Body, Sym{Name: strings.ReplaceAll(strings.Trim(f, `"`), "~", " "), Str: true})
 				default:
 					a.Body = append(a.Body, Sym{Name: f})
 					if !IsNT(f) && !terms[f] {
@@ -218,6 +219,18 @@ func S2() []*Grammar {
 		"S: a S b S | empty",
 		"S: a b c | a b d | A c ; A: a b",
 	}
+	// a string literal that contains a blank next to the sequence of its words (an item printed with blanks between
+	// its symbols reads the same for both), and alternatives that are textually identical (two productions all the same:
+	// the grammar is ambiguous, hence not LR(1))
+	specs = append(specs,
+		`S: "a~b" | "a" "b"`,
+		`S: "a" "b" | "a~b"`,
+		`S: A ; A: "a~b" "c" | "a" "b~c"`,
+		`S: A ; A: "a~b" | "a" "b" | "a" B ; B: "b"`,
+		"S: a | a",
+		"S: A | A ; A: a",
+		"S: a b | c | a b",
+		"S: A b ; A: a | empty | a")
 	// terminals one of whose spellings is the concatenation of two others ( > > >> ,  < = <= ,  a b ab ): a tail
 	// symbol followed by a look-ahead then reads like another look-ahead. Three shapes: LR(1) with the reduction
 	// decided by > versus >>; the same made ambiguous by a third context; nested generics against a shift operator.
@@ -228,7 +241,9 @@ func S2() []*Grammar {
 			"Top: Open "+y+" | Shift "+xy+" n | Pack q ; Open: l Name "+x+" ; Shift: l Val ; Pack: l Arg "+xy+" ; Name: n ; Val: i ; Arg: i",
 			"Def: Type i lp rp e E ; Type: i | i l Type "+x+" ; E: Prim "+xy+" E | Const "+xy+" E | Prim ; Prim: Var | lp E rp ; Var: i ; Const: i",
 			"S: A "+x+" "+y+" | B "+xy+" ; A: c ; B: c",
-			"S: l A "+x+" "+y+" | l B "+xy+" | A "+xy+" ; A: c ; B: c")
+			"S: l A "+x+" "+y+" | l B "+xy+" | A "+xy+" ; A: c ; B: c",
+			"Expr: Expr "+xy+" Type | Type ; Type: i | i l Type "+x,
+			"Expr: Type "+xy+" Expr | Type ; Type: i | i l Args "+x+" ; Args: Type | Args c Type")
 	}
 	var out []*Grammar
 	for _, s := range specs {
